@@ -99,7 +99,7 @@ Check == /\ phase = "check"
 (* Bank::merge of the next selected segment of bank bi *)
 Todo == Selected(segs, banks[bi]) \ done
 MergeSeg == /\ phase = "merge" /\ Todo # {}
-            /\ LET i == BMin(Todo) IN cur' = BankMerge(cur, segs[i]) /\ done' = done \cup {i}
+            /\ LET i == BMin(Todo) IN cur' = BankMerge(cur, segs[i], Deviations) /\ done' = done \cup {i}
             /\ UNCHANGED <<cfg, phase, banks, segs, errs, bi, merged, files, wi>>
 (* size check / padding of bank bi, then the next bank or the end of merge_segments *)
 Size == /\ phase = "merge" /\ Todo = {}
@@ -139,9 +139,10 @@ SameAsFunction == Ended => LET m == Outcome(cfg, Deviations) IN
                            /\ m.ok = (phase = "done") /\ (m.ok => m.files = files) /\ (~m.ok => m.errs = errs)
 (* while a bank is being merged its image is the declarative image of the segments merged so far  *)
 (* (range = lowest..highest address, later wins, gaps hold the fill value): the inductive core     *)
-MergePrefix == (phase = "merge" /\ \A i \in Idx(segs) : Len(segs[i].bytes) > 0) =>
-                  LET im == ImageOf(segs, done, FillOf(banks[bi])) IN
-                  /\ cur.data = im.data /\ (done # {} => cur.lo = im.lo /\ cur.hi = im.hi)
+MergePrefix == (phase = "merge" /\ "EmptySegmentStretchesBank" \notin Deviations) =>
+                  LET full == {i \in done : Len(segs[i].bytes) > 0}
+                      im == ImageOf(segs, full, FillOf(banks[bi])) IN
+                  /\ cur.data = im.data /\ (full # {} => cur.lo = im.lo /\ cur.hi = im.hi)
 (* files are only ever created after every check has passed, and failed runs leave none *)
 NoPartialOutput == (phase = "failed" => files = <<>>) /\ (files # <<>> => errs = {})
 (* a written file never shrinks and every bank is written exactly once (action property) *)
@@ -163,6 +164,7 @@ NoShort == ~(phase = "failed" /\ "short" \in errs)
 NoUnknownBank == ~(phase = "failed" /\ "unknownbank" \in errs)
 NoNoBank == ~(phase = "failed" /\ "nobank" \in errs)
 NoPrgMulti == ~(phase = "failed" /\ "prgmulti" \in errs)
+NoEmptyLater == ~(phase = "done" /\ WitnessEmpty(cfg))
 NoRangeErr == ~(phase = "failed" /\ "range" \in errs)
 NoSizeRange == ~(phase = "failed" /\ "sizerange" \in errs)
 NoUndefSeg == ~(phase = "failed" /\ "undefseg" \in errs)
